@@ -431,3 +431,40 @@ Proof.
   eapply Forall_impl; [|exact I2]. cbn beta. intros y Hy.
   assert (length (row_px p row) <= N.to_nat (g_cols p))%nat by (unfold row_px; apply firstn_le_length). lia.
 Qed.
+
+(* ---- the row limit of FilterCCITTFax.toParams ---- *)
+
+From GoPdf.C06 Require Import FilterParams CCITTParams.
+Open Scope Z_scope.
+
+Lemma ccitt_max_rows_pos columns rows : 1 <= ccitt_max_rows columns rows.
+Proof.
+  unfold ccitt_max_rows, ccitt_geo_max_rows.
+  set (g := Z.max 1 _). assert (1 <= g) by (subst g; lia).
+  destruct ((0 <? rows) && (rows <? g)) eqn:E; lia.
+Qed.
+
+(* what the encoder accepts is decoded exactly: "rows <= MaxRows" is discharged by the encoder's answer *)
+Theorem g3_encode_rt p rows e :
+  (0 < g_cols p)%N -> Forall (row_ok p) rows -> g3_encode p rows = Ok e -> g3_dec p e = Ok (concat rows).
+Proof.
+  intros Hc Hok. unfold g3_encode, rows_accepted.
+  destruct (Nat.eqb (g_maxrows p) 0 || Nat.leb (length rows) (g_maxrows p)) eqn:E; [|discriminate].
+  intros H. inversion H; subst. apply g3_1d_rt_proof; try assumption.
+  apply orb_true_iff in E as [E|E]; [left; apply Nat.eqb_eq, E|right; apply Nat.leb_le, E].
+Qed.
+
+Theorem ccitt_filter_rt c rows e :
+  validate_ccitt c = true -> 0 <= c_columns c -> Forall (row_ok (g3p_of c)) rows ->
+  g3_encode (g3p_of c) rows = Ok e ->
+  g3_dec (g3p_of c) e = Ok (concat rows) /\ (length rows <= Z.to_nat (ccitt_max_rows (c_columns c) (c_rows c)))%nat.
+Proof.
+  intros Hv Hcols Hok He. split.
+  - apply (g3_encode_rt (g3p_of c) rows e); try assumption. unfold g3p_of; cbn [g_cols].
+    destruct (c_columns c =? 0) eqn:E; lia.
+  - unfold g3_encode, rows_accepted in He. cbn [g3p_of g_maxrows] in He.
+    pose proof (ccitt_max_rows_pos (c_columns c) (c_rows c)).
+    destruct (Nat.eqb (Z.to_nat (ccitt_max_rows (c_columns c) (c_rows c))) 0) eqn:E0; [apply Nat.eqb_eq in E0; lia|].
+    cbn [orb] in He. destruct (Nat.leb (length rows) (Z.to_nat (ccitt_max_rows (c_columns c) (c_rows c)))) eqn:E1; [|discriminate].
+    apply Nat.leb_le, E1.
+Qed.
